@@ -128,7 +128,9 @@ def _structure(rep, tier, progs):
         h = hashlib.sha256(text.encode()).hexdigest()[:16]
         if v in ("same", "trivial", "differs", "paren-rejected", "gap-parses"):
             parsed_ok.add(h)
-        elif base is not None and h in base:
+        elif v == "rejected" and base is not None and h in base:
+            # only texts INSIDE the reference's C subset (expressions, if / for / while / do, declarations): dropping e.g. `switch` or
+            # pointer syntax from the grammar is a dialect decision, not a structural mis-parse
             rep.add("parse:" + (text if k == "prog" else k), "violation", "parse-acceptance",
                     f"a text the pinned grammar parses is now rejected by the parser ({detail})", c=text)
         if v == "differs":
